@@ -157,6 +157,22 @@ impl PackageInfo {
     /// counted in. `column` and the offsets are in bytes, which is a different number whenever a
     /// non-ASCII character precedes the version on its line. Returns `None` if the offsets do
     /// not fit `content`.
+    /// Whether the version range lies on the line the package reports. It does not when the value
+    /// is written over several lines (a TOML multi-line string, a YAML block scalar): the range
+    /// then contains a line break, or starts on a later line than the reported one. Such a value
+    /// is not a version requirement and has no location a client could show.
+    pub fn is_on_one_line(&self, content: &str) -> bool {
+        let spans_lines = content
+            .get(self.start_offset..self.end_offset)
+            .is_some_and(|text| text.contains('\n'));
+        let starts_later = self
+            .start_offset
+            .checked_sub(self.column)
+            .and_then(|line_start| content.get(line_start..self.start_offset))
+            .is_some_and(|before| before.contains('\n'));
+        !spans_lines && !starts_later
+    }
+
     pub fn utf16_span(&self, content: &str) -> Option<(u32, u32)> {
         let line_start = self.start_offset.checked_sub(self.column)?;
         let before = content.get(line_start..self.start_offset)?;
